@@ -142,11 +142,36 @@ def unit(u):
     return acc
 
 
+def mp_unit(u):
+    """Optimisation distributed over sub-problems: every merge of the real workers' streams (SchedMC, as in C11)."""
+    from mc.props import C11
+
+    tier, cases = u
+    inner = Acc()
+    for spec, pname, subs, mode, var in cases:
+        C11.check_case(inner, spec, pname, subs, mode, var, tier)
+    out = Acc()
+    out.c["mp_schedules"] = inner.c["schedules"]
+    out.c["mp_cases"] = inner.c["cases"]
+    for k, v in inner.viol.items():
+        if k.startswith("optimise:") and "statistics" not in k:
+            for w in v["witnesses"]:
+                out.violation("multiprocessing:" + k, w, v["detail"])
+            out.viol["multiprocessing:" + k]["count"] = v["count"]
+    return out
+
+
 def run(tier, seed):
+    from mc.props import C11
+    from mc.runner import chunks, pmap
+
     t0 = time.time()
     acc, nspecs = SC.run_units(unit, tier, seed)
+    mp_cases = [c for c in C11.all_cases(tier) if c[3] != "solve"]
+    mp_cases = mp_cases[:: (3 if tier == "quick" else 1)]
+    acc.merge(pmap(mp_unit, [(tier, c) for c in chunks(mp_cases, 6)], seed))
     cov = {
-        "states": acc.c["runs"] + acc.c["restarts"],
+        "states": acc.c["runs"] + acc.c["restarts"] + acc.c["mp_schedules"],
         "transitions": acc.c["propagator_executions"],
         "traces_validated_against_impl": acc.c["runs"],
         "evaluations": acc.c["runs"],
@@ -155,6 +180,7 @@ def run(tier, seed):
                 "plus every restart state observed by interposing reset/decrease_max/increase_min; oracle = brute-force "
                 "optimum, None iff infeasible, restart-state invariant, restart bound, step budget; non-trivial = feasible problem",
         "runs_with_several_incumbents": acc.c["nt_runs_with_2+_incumbents"],
+        "multiprocessing_schedules": acc.c["mp_schedules"], "multiprocessing_cases": acc.c["mp_cases"],
         "infeasible_runs": acc.c["nt_infeasible_runs"],
         "problems": nspecs,
         "exhaustive": True,
@@ -164,13 +190,19 @@ def run(tier, seed):
     return finish(PROP, tier, seed, "model_checking", acc, cov,
                   ["relation predicates of mc/contracts.py; brute-force optimum",
                    "termination is decided as bounded termination (deterministic jump budget, DESIGN 2.9)",
-                   "the multiprocessing variant of optimisation is decided by C11 for every merge of the workers' streams"],
+                   "the multiprocessing variant is explored with SchedMC (every merge of the real workers' incumbent streams, a third of the "
+                   "C11 optimisation cases in quick, all in thorough)"],
                   t0, vacuity={"nt_feasible_runs": 1000, "nt_infeasible_runs": 100, "nt_runs_with_2+_incumbents": 100})
 
 
 def replay(entry):
     rc = 0
     for w in entry["witnesses"]:
+        if "partition" in w:
+            from mc.props import C11
+
+            rc = rc or C11.replay({"witnesses": [w]})
+            continue
         for _ in range(2):
             acc = Acc()
             spec = w["spec"]
